@@ -268,7 +268,8 @@ impl CelsData<RawPixels> {
         }
         let validate_ref = |id: CelId| {
             let index = id.frame as usize * num_layers + id.layer as usize;
-            if is_linkable_cel[index] {
+            let in_range = (id.frame as u32) < num_frames && (id.layer as usize) < num_layers;
+            if in_range && is_linkable_cel[index] {
                 Ok(())
             } else {
                 Err(AsepriteParseError::InvalidInput(format!(
@@ -287,6 +288,12 @@ impl CelsData<RawPixels> {
                         frame: frame as u16,
                         layer: layer as u16,
                     };
+                    if layer >= num_layers {
+                        return Err(AsepriteParseError::InvalidInput(format!(
+                            "Cel {} references a layer that does not exist (number of layers: {})",
+                            cel_id, num_layers
+                        )));
+                    }
                     Some(cel.validate(
                         cel_id,
                         layers,
